@@ -227,7 +227,7 @@ fn stage(i: &Input, c: &mut Case) -> Result<(), String> {
 pub const STAGES: &[Stage] = &[Stage { name: "junk_at_every_boundary", f: stage }];
 
 pub fn run(rc: &mut RunCtx) {
-    rc.run_pt(STAGES[0], rc.pick(12_000, 250_000), (96, 400));
+    rc.run_pt(STAGES[0], rc.pick(48_000, 250_000), (96, 400));
     rc.require_label("junk_at_every_boundary", "pre_true", 300_000);
     rc.require_label("junk_at_every_boundary", "pre_true_depth2plus", 50_000);
     rc.require_label("junk_at_every_boundary", "pre_false", 50_000);
